@@ -25,7 +25,7 @@ pub fn fresh(cfg: &CfgSpec) -> Built {
     let mut wc = BTreeMap::new();
     wc.insert(1u64, 0u64);
     let ghost = Ghost { paid: BTreeMap::new(), wd, wcount: wc, don_n: "0".into(), don_l: "0".into(), delivered: "0".into(), swept: "0".into() };
-    Built { chain, ghost }
+    Built { chain, ghost, last_stake: None, roundtrip: None }
 }
 
 pub fn hist_case(name: &str, cfg: CfgSpec, steps: Vec<H>) -> Case {
@@ -254,6 +254,15 @@ pub fn histories(cfg: &CfgSpec, tier: &str) -> Vec<Case> {
             fails(Op::ReceiveUnstaked { sender: P::HookCollector2, batch: 1, funds: Funds::Native }),
             ok(Op::ReceiveUnstaked { sender: P::HookStaker2, batch: 1, funds: Funds::Native }),
         ],
+    );
+    // rounding never profits: stake, immediately unstake exactly the minted amount (alone or next to another request), submit
+    add(
+        "roundtrip",
+        vec![resume(), ok(stake(P::U(1), MintTo::None, vec![])), ok(rewards()), ok(stake(P::U(0), MintTo::None, vec![])), ok(Op::UnstakeMinted { sender: P::U(0) }), H::Advance(DAY), ok(Op::Submit { sender: P::U(2) })],
+    );
+    add(
+        "roundtrip2",
+        vec![resume(), ok(stake(P::U(1), MintTo::None, vec![])), ok(rewards()), ok(unstake(1)), ok(stake(P::U(0), MintTo::None, vec![])), ok(Op::UnstakeMinted { sender: P::U(0) }), H::Advance(DAY), ok(Op::Submit { sender: P::U(2) })],
     );
     // admin re-bases the totals with LST = 0 < staked: the next stake sweeps stake the contract does not hold
     add("resume-sweep", vec![ok(Op::ResumeStaked { sender: P::Admin }), ok(stake(P::U(0), MintTo::None, vec![])), H::Do(Op::FeeWithdraw { sender: P::Admin }, cfg.treasury)]);
